@@ -78,6 +78,31 @@ CLAIMED["C09"] = dict(
     note="Trusted: clang, AST export, initialisation order as reported by clang; assumes no continuation-relevant state outside the dumped objects; "
          "the transient table (cmiv/rules/c09.py) is confirmed by reading, one reason per member.")
 
+CLAIMED["C08"] = dict(
+    level="other", design="3/C08",
+    technique="static analysis: per-operation typestate / lockset / confirmed-value path rules on the CFG of every container method "
+              "and instantiation; symbolic old/new-value check of the atomic wrappers",
+    text="Decides, for every instantiation, the per-operation facts from which the hand-out guarantees follow for every interleaving: "
+         "each AtomicValue method is exactly one atomic access with the right delta and result; ThreadLock is a thin test-and-set; a "
+         "pool index is returned only after its flag was won, flags are flipped only by acquire/release, the occupancy counter nets +1 "
+         "per hand-out and 0 otherwise and is only changed by read-modify-writes, released ranges are reset; queue state is touched only "
+         "under the queue lock which is released once on every path; a task index is handed out only after lock_dependency() succeeded "
+         "on exactly that entry and it left the live range; two-lock acquisition rolls back; overflow copies use one shared counter. "
+         "Progress under contention and the array-shift invariant are not decided.",
+    note="Trusted: C++11 memory model for std::atomic RMW, clang, AST export. Statistics fields (QUEUE_STATS) are outside the lock rule.")
+
+CLAIMED["C19"] = dict(
+    level="proof", design="3/C19",
+    technique="static analysis: custom abstract interpretation (power-of-two typestate + divisibility fact) over the CFG of TimeLine, "
+              "dominance of the time update by the divisibility-loop exit, restart grammar agreement",
+    text="Proves the invariant structure from which the per-step argument follows for every history: stored limits and the step added are "
+         "powers of two >= 1, the update `_current_time += step` is dominated on every path by the exit of `(2^63 - time) % step > 0` with "
+         "neither operand changed since, no modulus by a possibly-zero value, the step only shrinks from the configured maximum, early "
+         "stops do not move time, the reported step/time are the affine images of the integers used, the flag is time < end, all state "
+         "members are saved and restored, and the driver stops on false. Hence time increases strictly, never passes the end and can "
+         "only end at the end (DESIGN.md). The floating-point `no larger than requested` comparison is located, not evaluated.",
+    note="Trusted: clang, AST export, 64-bit unsigned arithmetic; TimeLine limits are powers of two on entry of advance() by T1 and by restart round-trip.")
+
 NOT_APPLICABLE = {
     "C13": "Equality with the RANLUX sequence, range [0,1) and byte-identical snapshots are facts about computed 48-bit arithmetic and library I/O; no sound static domain or on-disk reference to validate against. Its one structural clause (generator state fully dumped/restored) is decided under C09.",
     "C15": "Validity of a Voronoi tessellation and agreement of two constructions quantify over real generator sets; correctness rests on geometric predicates and flip sequences whose outcomes are runtime values; no clause has its truth in the shape of the code.",
